@@ -88,7 +88,7 @@ func CallsDeep(fn *ssa.Function) []CallSite {
 // CallsTo filters call sites whose resolved callee name matches the regexp
 // (anchored).
 func CallsTo(sites []CallSite, pattern string) []CallSite {
-	re := regexp.MustCompile("^(?:" + pattern + ")$")
+	re := regexpMustCompile(pattern)
 	var out []CallSite
 	for _, s := range sites {
 		if re.MatchString(s.Name) {
@@ -222,7 +222,7 @@ func GuardTerms(in ssa.Instruction) []string {
 }
 
 func HasGuard(in ssa.Instruction, pattern string) bool {
-	re := regexp.MustCompile("^(?:" + pattern + ")$")
+	re := regexpMustCompile(pattern)
 	for _, g := range GuardTerms(in) {
 		if re.MatchString(g) {
 			return true
@@ -325,7 +325,7 @@ func trailString(p *Program, trail []*ssa.BasicBlock) string {
 }
 
 func callPred(pattern string) instrPred {
-	re := regexp.MustCompile("^(?:" + pattern + ")$")
+	re := regexpMustCompile(pattern)
 	return func(in ssa.Instruction) bool {
 		ci, ok := in.(ssa.CallInstruction)
 		if !ok {
@@ -339,7 +339,7 @@ func callPred(pattern string) instrPred {
 }
 
 func anyCallPred(pattern string) instrPred {
-	re := regexp.MustCompile("^(?:" + pattern + ")$")
+	re := regexpMustCompile(pattern)
 	return func(in ssa.Instruction) bool {
 		ci, ok := in.(ssa.CallInstruction)
 		if !ok {
@@ -724,7 +724,7 @@ func condValue(cond ssa.Value, assumes []Assume) (bool, bool) {
 	}
 	t := Term(cond)
 	for _, a := range assumes {
-		re := regexp.MustCompile("^(?:" + a.Re + ")$")
+		re := regexpMustCompile(a.Re)
 		if re.MatchString(t) {
 			return a.Val, true
 		}
@@ -802,7 +802,7 @@ func PrunedCanReach(fn *ssa.Function, from ssa.Instruction, assumes []Assume, ta
 
 // storePred matches a Store (or MapUpdate) whose target address term matches.
 func storePred(addrPattern string) instrPred {
-	re := regexp.MustCompile("^(?:" + addrPattern + ")$")
+	re := regexpMustCompile(addrPattern)
 	return func(in ssa.Instruction) bool {
 		switch s := in.(type) {
 		case *ssa.Store:
@@ -816,8 +816,8 @@ func storePred(addrPattern string) instrPred {
 
 // storeValPred matches a Store to addrPattern of a value whose term matches valPattern.
 func storeValPred(addrPattern, valPattern string) instrPred {
-	re := regexp.MustCompile("^(?:" + addrPattern + ")$")
-	rv := regexp.MustCompile("^(?:" + valPattern + ")$")
+	re := regexpMustCompile(addrPattern)
+	rv := regexpMustCompile(valPattern)
 	return func(in ssa.Instruction) bool {
 		if s, ok := in.(*ssa.Store); ok {
 			return re.MatchString(Addr(s.Addr)) && rv.MatchString(Term(s.Val))
@@ -906,7 +906,7 @@ func findInstrs(fn *ssa.Function, pred instrPred) []ssa.Instruction {
 
 // loadPred matches a load whose address term matches.
 func loadPred(addrPattern string) instrPred {
-	re := regexp.MustCompile("^(?:" + addrPattern + ")$")
+	re := regexpMustCompile(addrPattern)
 	return func(in ssa.Instruction) bool {
 		if u, ok := in.(*ssa.UnOp); ok && u.Op == token.MUL {
 			return re.MatchString(Addr(u.X))
@@ -1100,4 +1100,15 @@ func retTerm(ret *ssa.Return, i int) string {
 		}
 	}
 	return Term(v)
+}
+
+var reCache = map[string]*regexp.Regexp{}
+
+func regexpMustCompile(pattern string) *regexp.Regexp {
+	if re, ok := reCache[pattern]; ok {
+		return re
+	}
+	re := regexp.MustCompile("^(?:" + pattern + ")$")
+	reCache[pattern] = re
+	return re
 }
